@@ -207,6 +207,13 @@ fn main() {
                 }
             }
         }
+        // RESP3 type bytes the decoder does not know (# , ! = % ~ > ( |): they fall into the inline-command
+        // branch, alone, inside arrays, and torn
+        for f in [&b"#t\r\n"[..], b",1.5\r\n", b"!3\r\nerr\r\n", b"=5\r\ntxt:a\r\n", b"%1\r\n+k\r\n:1\r\n", b"~1\r\n:1\r\n", b">2\r\n+a\r\n+b\r\n", b"(12345678901234567890\r\n", b"|1\r\n+a\r\n+b\r\n", b"!-1\r\n", b"=9999999999\r\n"] {
+            inputs.push(f.to_vec());
+            let mut w = b"*2\r\n".to_vec(); w.extend_from_slice(f); w.extend_from_slice(f); inputs.push(w);
+            inputs.push(f[..f.len() - 1].to_vec());
+        }
         // nesting
         let depths: Vec<usize> = if args.thorough() { vec![9, 100, 127, 128, 129, 130, 1000, 5000, 20000, 100000, 200000] } else { vec![9, 100, 127, 128, 129, 130, 1000, 20000] };
         for d in depths {
